@@ -11,7 +11,7 @@ CASE_TIMEOUT = 0.02
 RULE = ("all strings over the 25-symbol lexical alphabet up to length 3 (quick) / 4 (thorough), seeded token soup "
         "and mutated program lines, sessions of protocol-respecting API calls; non-trivial = the line yields at least "
         "two tokens or an error; distinct = distinct case lines")
-ASSUMPTIONS = ["watchdog: a case that does not answer within 3 s is a HANG",
+ASSUMPTIONS = ["watchdog: a case that does not answer within 30 s (the limit is generous because 65000-deep recursions run under full machine load) is a HANG",
                "profile dbg (the crate's debug assertions on) is used only for sessions that keep the terminal's calling discipline: "
                "a line is entered at the prompt or as the reply to INPUT / INKEY$, never while the program is running"]
 EXHAUSTIVE = {"quick": False, "thorough": False}
